@@ -10,4 +10,5 @@ func genAll(repo string) {
 	genMapLog(repo)
 	genGate(repo)
 	genBlock(repo)
+	genCopy(repo)
 }
